@@ -149,7 +149,7 @@ where
             None
         }
         Ok(Err(e)) => {
-            rec.emit(json!({"ev":"SealRet","ok":false,"errc":errc(&e),"err":errname(&e),"wire":0,"footer":0,"nonce":0}));
+            rec.emit(json!({"ev":"SealRet","ok":false,"errc":errc(&e),"err":errname(&e),"wire":0,"footer":0,"fresh":[]}));
             None
         }
         Ok(Ok(tok)) => {
@@ -165,7 +165,7 @@ where
             let wid = rec.intern(&payload);
             let tfid = rec.intern(&tfooter);
             let nonce = if purpose == "local" { payload.get(..nonce_len(B::VER)).unwrap_or(&payload).to_vec() } else { Vec::new() };
-            let nid = rec.intern(&nonce);
+            let fresh: Vec<u64> = if purpose == "local" { vec![rec.intern(&nonce)] } else { vec![] };
             if purpose == "public" && B::VER == 3 {
                 st.signatures += 1;
                 let n = payload.len();
@@ -173,7 +173,7 @@ where
                     st.leading_zero_sigs += 1;
                 }
             }
-            rec.emit(json!({"ev":"SealRet","ok":true,"wire":wid,"footer":tfid,"nonce":nid,"len":payload.len()}));
+            rec.emit(json!({"ev":"SealRet","ok":true,"wire":wid,"footer":tfid,"fresh":fresh,"len":payload.len(),"clen":claims.len()}));
             let sid = rec.intern(text.as_bytes());
             rec.emit(json!({"ev":"ToString","str":sid,"ver":B::VER,"purpose":purpose,"wire":wid,"footer":tfid}));
             Some(Sealed { payload, footer: tfooter, text })
